@@ -22,14 +22,15 @@ THEOREMS = ['C12_floyd_path_inv', 'C12_retrieve_valid', 'C12_retrieve_empty_iff'
 RULE = ('retrieve_shortest_path: all (s,t) on binary graphs (exhaustive all digraphs n<=3 quick / n<=4 thorough, all undirected '
         'n<=4 / n<=5) and on structured/random families n<=8 with tie-heavy lengths {1,2},{1,2,3}, lengths exact in binary64 where tolerance-based '
         'comparisons go wrong ({1..4}*2^-40; near-ties 2^20-1..2^21+3 as integers and scaled by 2^-20; inv on weights 2^28..2^30), inv transform (dyadic exact and '
-        '{1,2,3} tolerance), log transform on 2^-k; navigation_wu: undirected L with max_hops in {None,1,2,n}, directed L with '
-        'max_hops in {1,2,n} (max_hops=None can loop forever on directed cycles: liveness is outside the property), D random '
-        'symmetric integer nodal distances with ties (some asymmetric); non-trivial = at least one non-empty / successful path; '
-        'distinct by hash of (kind, matrices, max_hops)')
+        '{1,2,3} tolerance), log transform on 2^-k; one relabelled chain of 130-150 nodes (ids beyond int8); navigation_wu: undirected L with max_hops in '
+        '{None,0,1,2,n,random}, directed L with max_hops in {0,1,2,n,random} (max_hops=None can loop forever on directed cycles: liveness is outside the '
+        'property), L in {0/1, {1,2,3}, with a NONZERO DIAGONAL (self-connections), signed {-2,-1,1,2}, dyadic fractions}, D random symmetric integer nodal '
+        'distances with ties (some asymmetric), whole rows of equal values, zeros off the diagonal, dyadic fractions; n = 1 (ZeroDivisionError expected); '
+        'the model runs with exactly the PROVEN fuel (2n / max_hops+2); non-trivial = at least one non-empty / successful path; distinct by hash of (kind, matrices, max_hops)')
 ASSUMES = ['the theorems are over exact rationals: on lengths that are NOT exact in binary64 (1/3, k*ln 2) rounding can separate exactly tied alternatives — one known finding (hops-pmat-tie) lives exactly there',
            'lengths / nodal distances are small integers or dyadic rationals (exact in binary64); transformed lengths compared with tolerance 1e-9',
            'zero diagonal for distance_wei_floyd inputs; strictly positive weights; log transform on weights in (0,1]',
-           'navigation_wu: n >= 2 (n = 1 divides by zero in the success ratio); directed input only with finite max_hops']
+           'navigation_wu: finite entries in L and D (nan / inf are outside the model: Q); directed input only with finite max_hops (termination for max_hops=None is proved for a symmetric support only)']
 TRUSTED = ['-log is abstract in the theorems; the extracted run gets the table of floats NumPy computed']
 
 INF = float('inf')
@@ -105,6 +106,50 @@ def check_retrieve(ctx, bct, Wn, Lx, transform, case, exact, B_, tbl='0', trn=0,
     if B_ is not None:
         B_.add('retrieve %d %s %s' % (trn, Wenc, tbl), 'retrieve', case, (paths, exact))
     return nonempty
+
+
+def do_retrieve_long(ctx, bct, n):
+    """one long chain (n > 127 nodes, randomly relabelled, a few chords): node ids and hop counts beyond the range of a narrow
+    integer dtype; sampled (s,t) pairs judged by BFS on the support (unit lengths)"""
+    r = ctx.nprng
+    perm = [int(x) for x in r.permutation(n)]
+    A = np.zeros((n, n))
+    for k in range(n - 1):
+        A[perm[k], perm[k + 1]] = A[perm[k + 1], perm[k]] = 1
+    for _ in range(3):
+        a, b = int(r.randint(n)), int(r.randint(n))
+        if a != b:
+            A[a, b] = A[b, a] = 1
+    case = {'kind': 'long-chain', 'n': n, 'edges': [[int(a), int(b)] for a, b in np.argwhere(np.triu(A) != 0)]}
+    ctx.count('retrieve:long-chain')
+    S, Hh, P = call(bct.distance_wei_floyd, A.copy(), _t=60.0)
+    dist = H3.bfs_all_np(A != 0)
+    ok = 0
+    pairs = [(perm[0], perm[n - 1]), (perm[n - 1], perm[0])] + [(int(r.randint(n)), int(r.randint(n))) for _ in range(40)]
+    for s, t in pairs:
+        if s == t:
+            continue
+        try:
+            p = path_list(call(bct.retrieve_shortest_path, s, t, Hh, P))
+        except Timeout:
+            raise
+        except Exception as e:
+            ctx.fail('retrieve_shortest_path:returns', 'pair (%d,%d) on a %d-node chain: raises %s: %s' % (s, t, n, type(e).__name__, str(e)[:120]), case)
+            break
+        what = None
+        if not p or p[0] != s or p[-1] != t:
+            what = ('endpoints', 'path %s... does not go from %d to %d' % (p[:6], s, t))
+        elif any(not (0 <= a < n) for a in p):
+            what = ('nodes', 'path leaves the node set: %s' % [a for a in p if not (0 <= a < n)][:5])
+        elif any(A[a, b] == 0 for a, b in zip(p, p[1:])):
+            what = ('existing-connections', 'path uses a missing connection')
+        elif len(p) - 1 != Hh[s, t] or len(p) - 1 != dist[s, t] or S[s, t] != dist[s, t]:
+            what = ('hop-count', 'path has %d hops, reported hops %r, SPL %r, BFS distance %r' % (len(p) - 1, float(Hh[s, t]), float(S[s, t]), float(dist[s, t])))
+        else:
+            ok += 1
+        if what:
+            ctx.fail('retrieve_shortest_path:' + what[0], 'pair (%d,%d) on a %d-node chain: %s' % (s, t, n, what[1]), case)
+    ctx.case(case, nontrivial=ok > 0)
 
 
 def do_lengths(ctx, bct, W, fam, B_, with_model=True):
@@ -191,6 +236,12 @@ def do_nav(ctx, bct, L, D, mh, fam, B_):
                 a, b = next((a, b) for a, b in zip(p, p[1:]) if greedy_next(L, D, n, a, j) != b)
                 what = ('greedy-step', 'path %s: the step %d -> %d is not the greedy one (the neighbour of %d closest to %d, first minimum, is %s)'
                         % (p, a, b, a, j, greedy_next(L, D, n, a, j)))
+            elif any(b == (p[k - 1] if k > 0 else p[0]) or (mh is not None and k > mh) for k, (a, b) in enumerate(zip(p, p[1:]))):
+                # a recorded step is never one that stops the loop: not a return to the previous node (the source itself at
+                # the first step), not beyond max_hops (the k-th step, k from 0, needs k <= max_hops)
+                k = next(k for k, (a, b) in enumerate(zip(p, p[1:])) if b == (p[k - 1] if k > 0 else p[0]) or (mh is not None and k > mh))
+                what = ('step-admissible', 'path %s: step %d (%d -> %d) should have ended the navigation (return to the previous node%s)'
+                        % (p, k, p[k], p[k + 1], '' if mh is None else ' or more than max_hops=%d steps before it' % mh))
             elif not infs[0]:
                 succ += 1
                 if len(p) - 1 != PLb[i, j]:
@@ -381,6 +432,8 @@ def run(ctx):
             for _ in range(ctx.scale(1, 2)):
                 D, dk = gen_D(ctx, n)
                 do_nav(ctx, bct, A, D, None if r.rand() < 0.7 else int(r.randint(1, n + 1)), 'exhaustive_und', B_)
+    # ---- one chain of more than 127 nodes (ids / hop counts beyond int8)
+    do_retrieve_long(ctx, bct, int(r.randint(130, 150)))
     # ---- n = 1: the success ratio divides by n**2 - n = 0 on Python ints (ZeroDivisionError; model outcome NavRaises)
     for L1 in ([[0]], [[2]]):
         for mh in (None, 0, 3):
